@@ -216,4 +216,87 @@ theorem decode_encode_normal (M : Nat) (e2 : Int) (p : Nat) (hM1 : 2 ^ 52 ≤ M)
   have he : (E : Int) - 1075 = e2 - 52 := by omega
   rw [hs, hm, he, Int.one_mul]
 
+/-- `.inf` is returned only when the leading bit of the exact value is at 2^1024 or above -/
+theorem ratRound_inf (num den : Nat) (h : ratRound num den = .inf) :
+    (bitLen ((scaleRat num den).n2 / (scaleRat num den).d2) : Int) - 1 - (scaleRat num den).shift ≥ 1024 := by
+  unfold ratRound at h
+  simp only at h
+  generalize hq : bitLen ((scaleRat num den).n2 / (scaleRat num den).d2) = lq at *
+  generalize hsh : (scaleRat num den).shift = sh at *
+  by_cases h1 : (lq : Int) - 1 - sh > 1023
+  · omega
+  · rw [if_neg h1] at h
+    by_cases hge : (lq : Int) - 1 - sh ≥ -1022
+    · simp only [if_pos hge] at h
+      rw [if_neg (by decide)] at h
+      cases h
+    · simp only [if_neg hge] at h
+      by_cases h2 : (53 : Int) - (-1022 - ((lq : Int) - 1 - sh)) ≤ 0
+      · rw [if_pos h2] at h; cases h
+      · rw [if_neg h2] at h; cases h
+
+/-- the sticky comparison: "q exceeds 2^k or the division left a remainder" is "N exceeds 2^k · D" -/
+theorem above_power_iff (N D k : Nat) (hD : 0 < D) (hq : 2 ^ k ≤ N / D) :
+    (N / D > 2 ^ k ∨ N % D ≠ 0) ↔ 2 ^ k * D < N := by
+  have hN : N = D * (N / D) + N % D := (Nat.div_add_mod N D).symm
+  have ht : N % D < D := Nat.mod_lt _ hD
+  generalize N / D = q at *
+  generalize N % D = t at *
+  constructor
+  · intro h
+    rcases h with h | h
+    · have : (2 ^ k + 1) * D ≤ q * D := Nat.mul_le_mul_right D h
+      rw [Nat.add_mul, Nat.one_mul] at this
+      rw [hN, Nat.mul_comm D q]; omega
+    · have : 2 ^ k * D ≤ q * D := Nat.mul_le_mul_right D hq
+      rw [hN, Nat.mul_comm D q]; omega
+  · intro h
+    by_cases hq' : q > 2 ^ k
+    · exact Or.inl hq'
+    · have : q = 2 ^ k := by omega
+      subst this
+      right
+      intro ht0
+      rw [hN, ht0, Nat.mul_comm] at h
+      omega
+
+/-- below the subnormal range: the result is 0, or the smallest subnormal exactly when the value
+    lies strictly above half of it (a tie at exactly half goes to the even one, 0) -/
+theorem ratRound_tiny (num den : Nat) (hn : num ≠ 0) (hd : den ≠ 0) (up : Bool) (h : ratRound num den = .tiny up) :
+    let e2 : Int := (bitLen ((scaleRat num den).n2 / (scaleRat num den).d2) : Int) - 1 - (scaleRat num den).shift
+    e2 ≤ -1075 ∧
+    (up = true ↔ (e2 = -1075 ∧
+      2 ^ (bitLen ((scaleRat num den).n2 / (scaleRat num den).d2) - 1) * (scaleRat num den).d2 < (scaleRat num den).n2)) := by
+  intro e2
+  obtain ⟨hdpos, hq55⟩ := scaled_quotient_large num den hn hd
+  have hq0 : (scaleRat num den).n2 / (scaleRat num den).d2 ≠ 0 := by
+    intro e; rw [e] at hq55; exact absurd hq55 (by decide)
+  obtain ⟨b1, _⟩ := bitLen_bounds _ hq0
+  have habove := above_power_iff (scaleRat num den).n2 (scaleRat num den).d2 _ hdpos b1
+  show ((bitLen ((scaleRat num den).n2 / (scaleRat num den).d2) : Int) - 1 - (scaleRat num den).shift) ≤ -1075 ∧ _
+  unfold ratRound at h
+  simp only at h
+  generalize hq : bitLen ((scaleRat num den).n2 / (scaleRat num den).d2) = lq at *
+  generalize hsh : (scaleRat num den).shift = sh at *
+  by_cases h1 : (lq : Int) - 1 - sh > 1023
+  · rw [if_pos h1] at h; cases h
+  · rw [if_neg h1] at h
+    by_cases hge : (lq : Int) - 1 - sh ≥ -1022
+    · simp only [if_pos hge] at h
+      rw [if_neg (by decide)] at h
+      cases h
+    · simp only [if_neg hge] at h
+      by_cases h2 : (53 : Int) - (-1022 - ((lq : Int) - 1 - sh)) ≤ 0
+      · rw [if_pos h2] at h
+        simp only [Rounded.tiny.injEq] at h
+        refine ⟨by omega, ?_⟩
+        rw [← h]
+        simp only [Bool.and_eq_true, beq_iff_eq, Bool.or_eq_true, decide_eq_true_eq, bne_iff_ne, ne_eq]
+        constructor
+        · intro ⟨hp0, hx⟩
+          exact ⟨by omega, habove.mp hx⟩
+        · intro ⟨he, hx⟩
+          exact ⟨by omega, habove.mpr hx⟩
+      · rw [if_neg h2] at h; cases h
+
 end MechVerif.Lit
